@@ -1258,8 +1258,8 @@ func TestVerifC41(t *testing.T) {
 
 	// Family C — ECDHE without the ECC extensions and client-ordered suites (hand-marshalled):
 	// every server subset x client subset x the five extension shapes x hello version x client
-	// order x preference mode. C1: the full 6-suite menu (quick: a 4-suite sub-menu) with hellos
-	// TLS1.0/TLS1.2 and client/server preference; C2: the sub-menu with hellos SSL3.0/TLS1.1 and
+	// order x preference mode. C1: the full 6-suite menu with all three preference modes (quick: a
+	// 4-suite sub-menu, client/server preference) with hellos TLS1.0/TLS1.2; C2: the sub-menu with hellos SSL3.0/TLS1.1 and
 	// all three preference modes (quick: equivalence groups only, TLS1.1).
 	sub := []int{0, 2, 3, 4} // GCM, ECDHE-CBC, ECDHE-RC4, RSA-CBC
 	var subMasks, allMasks []int
@@ -1303,7 +1303,7 @@ func TestVerifC41(t *testing.T) {
 		if !runC("C2", subMasks, []uint16{VersionSSL30, VersionTLS11}, []int{0, 1, 2}) {
 			return
 		}
-		if !runC("C1", allMasks, []uint16{VersionTLS10, VersionTLS12}, []int{0, 1}) {
+		if !runC("C1", allMasks, []uint16{VersionTLS10, VersionTLS12}, []int{0, 1, 2}) {
 			return
 		}
 	} else {
